@@ -27,7 +27,7 @@ fn main() {
     }
     let indir = std::path::Path::new(&args[1]);
     let outdir = std::path::Path::new(&args[2]);
-    let mut want = vec!["rust".to_string(), "python".to_string(), "cxx".to_string()];
+    let mut want = vec!["rust".to_string(), "python".to_string(), "cxx".to_string(), "java".to_string()];
     if let Some(i) = args.iter().position(|a| a == "--backends") {
         want = args[i + 1].split(',').map(|s| s.to_string()).collect();
     }
@@ -130,6 +130,24 @@ fn main() {
                 }
                 Ok(Ok(f)) => f,
             };
+            if b == "java" {
+                let dir = outdir.join(format!("{name}.java.d"));
+                let r = catch_unwind(AssertUnwindSafe(|| {
+                    backends::java::generate(&sources, &analyzed, &[], &dir, "p")
+                }));
+                match r {
+                    Ok(Ok(())) => {
+                        st.insert(b.clone(), json!("ok"));
+                    }
+                    Ok(Err(e)) => {
+                        st.insert(b.clone(), json!({"error": e}));
+                    }
+                    Err(e) => {
+                        st.insert(b.clone(), json!({"panic": panic_msg(e)}));
+                    }
+                }
+                continue;
+            }
             let pycustom = opts["python_custom"].as_str();
             let (ext, res): (&str, std::thread::Result<String>) = match b.as_str() {
                 "rust" => (
